@@ -18,6 +18,7 @@ func init() {
 		ruleK4(c, "C15.K4")
 		ruleK5(c, "C15.K5")
 		ruleK6(c, "C15.K6")
+		ruleK7(c, "C15.K7")
 	}
 }
 
@@ -663,4 +664,17 @@ func ruleK4(c *Ctx, id string) {
 			R.Undecided(id, "super.MkFsSuper|NBlockBitmap form", P.Pos(w.Instr.Pos()), "NBlockBitmap has the form Size/NBITBLOCK + 1", "other form: coverage of the disk by the bitmap cannot be decided structurally")
 		}
 	}
+}
+
+
+// ruleK7: the bits PreCommit writes for an allocated / freed number are the
+// bits mkfs and the allocators mean: bit n of the bitmap that starts at the
+// region's first block (C01.R3's WriteBits clauses, reported here because a
+// wrong block index shows only on disks with more than one bitmap block).
+func ruleK7(c *Ctx, id string) {
+	c.R.Rule(id, "run-time bitmap writes address bit n of the bitmap region: WriteBits writes one bit at addr.MkBitAddr(start, n) with value 1 << (n % 8) (complemented for frees)", 4)
+	if c.V.WriteBits == nil || c.V.OverWrite == nil {
+		return
+	}
+	ruleWriteBits(c, id)
 }
